@@ -13,8 +13,9 @@ EXTENDS Dyadic, Sequences, FiniteSets, TLC
 
 CONSTANTS Iters
 
+IdAdj(n, t) == t
 INSTANCE ModelAbs WITH SAdd <- DAdd, SMul <- DMul, SNeg <- DNeg, SDiv <- DDiv, SFn <- DFn,
-                       SPow <- DPow, SDPow <- DDPow, SZero <- DZero, SOne <- DOne
+                       SPow <- DPow, SDPow <- DDPow, SZero <- DZero, SOne <- DOne, AdjCanon <- IdAdj
 
 Tn(d, ints, e) == T(d, [k \in 1..Len(ints) |-> Dy(ints[k], e)])
 \* stacks: sequence of [in, out, act]; parameters by position
